@@ -1,8 +1,323 @@
-import Lean.Data.Json
-/- stub: the C18 driver is not built yet -/
-namespace Glom.C18.Driver
-open Lean
+import Glom.Py.Json
+import Glom.Spec.C18
+import Glom.Model.C18Env
+import Glom.Spec.C01
+import Glom.Model.C01Env
+/-
+  C18 driver: one JSON case in, one JSON verdict out.  Three kinds of cases:
 
-def run (_j : Json) : Except String Json := .error "property C18: driver not implemented yet"
+  {"kind":"repr", "obj": OBJ,
+   "impl": {"text": s, "eval": OBJ|null, "text2": s|null, "pickled": OBJ|null, "same_eval": b}}
+      OBJ  ::= {"t"|"path": {"root": r, "steps": [STEP…]}}
+      STEP ::= {"attr": name} | {"item": ITEM} | {"items": [ITEM…]}
+             | {"call": {"args": [ARG…], "kwargs": [[k, ARG]…]}} | {"seg": text} | "star" | "starstar"
+      ITEM ::= {"one": ARG} | {"slice": [ARG|null, ARG|null, ARG|null]}
+      ARG  ::= {"lit": text} | {"t": {"root": r, "steps": [STEP…]}}
+      (a literal is its bbrepr text)
+
+  {"kind":"seq", "root": r, "steps": [[op, argtext]…], "op": OP, "impl": RES}
+      OP  ::= "len" | {"idx": i} | {"slice": [a|null, b|null, c|null]} | "values" | "items"
+            | {"eq": {"root": r, "steps": […]}} | {"startswith": {…}} | {"concat": […]} | "from_t"
+      RES ::= {"nat": n} | {"path": {"root": r, "steps": […]}} | {"vals": [argtext…]}
+            | {"pairs": [[op, argtext]…]} | {"bool": b} | "IndexError" | "ValueError" | {"other": s}
+
+  {"kind":"concat", "classes": …, "heap": …, "target": Val, "p": [[op, Val]…], "q": [[op, Val]…],
+   "impl": {"joined": EV, "nested": {"first": EV} | {"second": EV}}}
+      EV ::= {"ok": Val} | {"pae": {"idx": n, "exc": cls}} | {"other": cls}
+-/
+namespace Glom.C18.Driver
+open Lean Glom Glom.C18
+
+/-! ### JSON codec -/
+
+def nameOfJson (j : Json) : Except String Name := do
+  match j with
+  | .str s => return s.toList
+  | _ => throw s!"expected name, got {j.compress}"
+
+mutual
+  partial def argOfJson (j : Json) : Except String (Arg String) := do
+    if let .ok (.str s) := j.getObjVal? "lit" then return .lit s
+    else if let .ok t := j.getObjVal? "t" then
+      let r ← t.getObjValAs? String "root"
+      let st ← stepsOfJson (← t.getObjVal? "steps")
+      return .t r st
+    else throw s!"bad arg {j.compress}"
+  partial def optArgOfJson (j : Json) : Except String (Option (Arg String)) :=
+    match j with
+    | .null => pure none
+    | _ => do return some (← argOfJson j)
+  partial def itemOfJson (j : Json) : Except String (Item String) := do
+    if let .ok a := j.getObjVal? "one" then return .one (← argOfJson a)
+    else if let .ok (.arr #[a, b, c]) := j.getObjVal? "slice" then
+      return .slice (← optArgOfJson a) (← optArgOfJson b) (← optArgOfJson c)
+    else throw s!"bad item {j.compress}"
+  partial def stepOfJson (j : Json) : Except String (Step String) := do
+    match j with
+    | .str "star" => return .star
+    | .str "starstar" => return .starstar
+    | _ =>
+      if let .ok n := j.getObjVal? "attr" then return .attr (← nameOfJson n)
+      else if let .ok i := j.getObjVal? "item" then return .item (← itemOfJson i)
+      else if let .ok (.arr is) := j.getObjVal? "items" then return .items (← is.toList.mapM itemOfJson)
+      else if let .ok (.str s) := j.getObjVal? "seg" then return .seg s
+      else if let .ok c := j.getObjVal? "call" then
+        let args ← match c.getObjVal? "args" with
+          | .ok (.arr a) => a.toList.mapM argOfJson
+          | _ => throw "bad call args"
+        let kwargs ← match c.getObjVal? "kwargs" with
+          | .ok (.arr a) => a.toList.mapM (fun s => match s with
+            | .arr #[.str k, v] => do return (k, ← argOfJson v)
+            | _ => throw s!"bad kwarg {s.compress}")
+          | _ => throw "bad call kwargs"
+        return .call args kwargs
+      else throw s!"bad step {j.compress}"
+  partial def stepsOfJson (j : Json) : Except String (List (Step String)) := do
+    match j with
+    | .arr a => a.toList.mapM stepOfJson
+    | _ => throw s!"expected steps, got {j.compress}"
+end
+
+def objOfJson (j : Json) : Except String (Obj String) := do
+  if let .ok t := j.getObjVal? "t" then
+    return .tobj (← t.getObjValAs? String "root") (← stepsOfJson (← t.getObjVal? "steps"))
+  else if let .ok t := j.getObjVal? "path" then
+    return .pobj (← t.getObjValAs? String "root") (← stepsOfJson (← t.getObjVal? "steps"))
+  else throw s!"bad obj {j.compress}"
+
+def optObjOfJson (j : Json) : Except String (Option (Obj String)) :=
+  match j with
+  | .null => pure none
+  | _ => do return some (← objOfJson j)
+
+mutual
+  partial def argToJson : Arg String → Json
+    | .lit v => Json.mkObj [("lit", v)]
+    | .t r st => Json.mkObj [("t", Json.mkObj [("root", r), ("steps", Json.arr (st.map stepToJson).toArray)])]
+  partial def optArgToJson : Option (Arg String) → Json
+    | none => .null
+    | some a => argToJson a
+  partial def itemToJson : Item String → Json
+    | .one a => Json.mkObj [("one", argToJson a)]
+    | .slice a b c => Json.mkObj [("slice", Json.arr #[optArgToJson a, optArgToJson b, optArgToJson c])]
+  partial def stepToJson : Step String → Json
+    | .attr n => Json.mkObj [("attr", String.ofList n)]
+    | .item i => Json.mkObj [("item", itemToJson i)]
+    | .items is => Json.mkObj [("items", Json.arr (is.map itemToJson).toArray)]
+    | .call args kw => Json.mkObj [("call", Json.mkObj [
+        ("args", Json.arr (args.map argToJson).toArray),
+        ("kwargs", Json.arr (kw.map (fun p => Json.arr #[Json.str p.1, argToJson p.2])).toArray)])]
+    | .seg v => Json.mkObj [("seg", v)]
+    | .star => "star"
+    | .starstar => "starstar"
+end
+
+def objToJson : Obj String → Json
+  | .tobj r s => Json.mkObj [("t", Json.mkObj [("root", r), ("steps", Json.arr (s.map stepToJson).toArray)])]
+  | .pobj r s => Json.mkObj [("path", Json.mkObj [("root", r), ("steps", Json.arr (s.map stepToJson).toArray)])]
+
+def optObjToJson : Option (Obj String) → Json
+  | none => .null
+  | some o => objToJson o
+
+/-- structural equality of expressions, through their JSON form (no derived instance
+    exists for the nested mutual types) -/
+instance : BEq (Step String) := ⟨fun a b => (stepToJson a).compress == (stepToJson b).compress⟩
+
+def obsOfJson (j : Json) : Except String (ReprObs String) := do
+  return { text := ← j.getObjValAs? String "text"
+           evalOk := ← optObjOfJson (← j.getObjVal? "eval")
+           text2 := match j.getObjVal? "text2" with
+             | .ok (.str s) => some s
+             | _ => none
+           pickled := ← optObjOfJson (← j.getObjVal? "pickled")
+           sameEval := ← j.getObjValAs? Bool "same_eval" }
+
+def obsToJson (o : ReprObs String) : Json :=
+  Json.mkObj [("text", o.text), ("eval", optObjToJson o.evalOk),
+    ("text2", match o.text2 with | some s => Json.str s | none => .null),
+    ("pickled", optObjToJson o.pickled), ("same_eval", o.sameEval)]
+
+def optObjEq (a b : Option (Obj String)) : Bool :=
+  match a, b with
+  | none, none => true
+  | some x, some y => sameObj x y
+  | _, _ => false
+
+def stepKind : Step String → String
+  | .attr _ => "attr" | .item _ => "item" | .items _ => "items" | .call .. => "call"
+  | .seg _ => "seg" | .star => "star" | .starstar => "starstar"
+
+def runRepr (j : Json) : Except String Json := do
+  let x ← objOfJson (← j.getObjVal? "obj")
+  let impl ← obsOfJson (← j.getObjVal? "impl")
+  let F := genFacts
+  let m := observeRepr F renderToks x
+  let agree := m.text == impl.text && optObjEq m.evalOk impl.evalOk && m.text2 == impl.text2 &&
+    optObjEq m.pickled impl.pickled && m.sameEval == impl.sameEval
+  let holds := checkRepr x impl
+  let modelHolds := checkRepr x m
+  let valid := validObj x
+  let why :=
+    (if holds then "" else "property fails on the implementation's observation; ") ++
+    (if agree then "" else "model differs from implementation; ") ++
+    (if modelHolds || !valid then "" else "model fails its own checker on a valid object; ")
+  let kind := match x with | .tobj r _ => s!"T-expr:{r}" | .pobj r _ => s!"Path:{r}"
+  let last := match x.steps.getLast? with | some s => stepKind s | none => "empty"
+  return Json.mkObj [("agree", agree && (modelHolds || !valid)), ("holds", holds),
+    ("model_holds", modelHolds), ("valid", valid), ("wf", WF F), ("model", obsToJson m),
+    ("branch", s!"repr/{kind}/{last}"), ("why", why)]
+
+/-! ### sequence cases -/
+
+def stepsPairsOfJson (j : Json) : Except String (List (String × String)) := do
+  (← arrOf j).mapM (pairOfJson strOfJson strOfJson)
+
+def optIntOfJson (j : Json) : Except String (Option Int) :=
+  match j with
+  | .null => pure none
+  | _ => match j.getInt? with
+    | .ok i => pure (some i)
+    | .error e => throw e
+
+def rootedOfJson (j : Json) : Except String (String × List (String × String)) := do
+  return (← j.getObjValAs? String "root", ← stepsPairsOfJson (← j.getObjVal? "steps"))
+
+def seqOpOfJson (j : Json) : Except String (SeqOp String) := do
+  match j with
+  | .str "len" => return .len
+  | .str "values" => return .values
+  | .str "items" => return .items
+  | .str "from_t" => return .fromT
+  | _ =>
+    if let .ok i := j.getObjVal? "idx" then
+      match i.getInt? with
+      | .ok n => return .idx n
+      | .error e => throw e
+    else if let .ok (.arr #[a, b, c]) := j.getObjVal? "slice" then
+      return .slice (← optIntOfJson a) (← optIntOfJson b) (← optIntOfJson c)
+    else if let .ok o := j.getObjVal? "eq" then
+      let (r, s) ← rootedOfJson o; return .eq r s
+    else if let .ok o := j.getObjVal? "startswith" then
+      let (r, s) ← rootedOfJson o; return .startswith r s
+    else if let .ok o := j.getObjVal? "concat" then return .concat (← stepsPairsOfJson o)
+    else throw s!"bad seq op {j.compress}"
+
+def pairsToJson (st : List (String × String)) : Json :=
+  Json.arr (st.map (fun s => Json.arr #[Json.str s.1, Json.str s.2])).toArray
+
+def seqResOfJson (j : Json) : Except String (SeqRes String) := do
+  match j with
+  | .str "IndexError" => return .indexError
+  | .str "ValueError" => return .valueError
+  | _ =>
+    if let .ok n := j.getObjValAs? Nat "nat" then return .nat n
+    else if let .ok p := j.getObjVal? "path" then
+      let (r, s) ← rootedOfJson p; return .path r s
+    else if let .ok v := j.getObjVal? "vals" then return .vals (← (← arrOf v).mapM strOfJson)
+    else if let .ok v := j.getObjVal? "pairs" then return .pairs (← stepsPairsOfJson v)
+    else if let .ok b := j.getObjValAs? Bool "bool" then return .bool b
+    else if let .ok s := j.getObjValAs? String "other" then return .other s
+    else throw s!"bad seq result {j.compress}"
+
+def seqResToJson : SeqRes String → Json
+  | .nat n => Json.mkObj [("nat", n)]
+  | .path r s => Json.mkObj [("path", Json.mkObj [("root", r), ("steps", pairsToJson s)])]
+  | .vals xs => Json.mkObj [("vals", Json.arr (xs.map Json.str).toArray)]
+  | .pairs xs => Json.mkObj [("pairs", pairsToJson xs)]
+  | .bool b => Json.mkObj [("bool", b)]
+  | .indexError => "IndexError"
+  | .valueError => "ValueError"
+  | .other s => Json.mkObj [("other", s)]
+
+def seqOpName : SeqOp String → String
+  | .len => "len" | .idx _ => "idx" | .slice .. => "slice" | .values => "values" | .items => "items"
+  | .eq .. => "eq" | .startswith .. => "startswith" | .concat _ => "concat" | .fromT => "from_t"
+
+def runSeq (j : Json) : Except String Json := do
+  let root ← j.getObjValAs? String "root"
+  let steps ← stepsPairsOfJson (← j.getObjVal? "steps")
+  let op ← seqOpOfJson (← j.getObjVal? "op")
+  let impl ← seqResOfJson (← j.getObjVal? "impl")
+  let m := if genFacts.getitemViaSteps then seqModel root steps op else .other "unrecognised __getitem__"
+  let holds := checkSeq root steps op impl
+  let agree := decide (m = impl)
+  let resKind := match seqRef root steps op with
+    | .indexError => "IndexError" | .valueError => "ValueError" | .path _ st => s!"path{st.length}"
+    | _ => "value"
+  return Json.mkObj [("agree", agree), ("holds", holds), ("model", seqResToJson m),
+    ("ref", seqResToJson (seqRef root steps op)),
+    ("branch", s!"seq/{seqOpName op}/{resKind}"),
+    ("why", (if holds then "" else "differs from the same operation on the tuple of steps; ") ++
+            (if agree then "" else "model differs from implementation; "))]
+
+/-! ### concatenation cases (C01's heap values) -/
+
+def evOfJson (j : Json) : Except String (EvalObs Val) := do
+  if let .ok v := j.getObjVal? "ok" then return .ok (← valOfJson v)
+  else if let .ok p := j.getObjVal? "pae" then
+    return .pae (← p.getObjValAs? Nat "idx") (← p.getObjValAs? String "exc")
+  else if let .ok c := j.getObjValAs? String "other" then return .other c
+  else throw s!"bad eval obs {j.compress}"
+
+def evToJson : EvalObs Val → Json
+  | .ok v => Json.mkObj [("ok", valToJson v)]
+  | .pae k c => Json.mkObj [("pae", Json.mkObj [("idx", k), ("exc", c)])]
+  | .other c => Json.mkObj [("other", c)]
+
+def nestedOfJson (j : Json) : Except String (Nested Val) := do
+  if let .ok o := j.getObjVal? "first" then return .first (← evOfJson o)
+  else if let .ok o := j.getObjVal? "second" then return .second (← evOfJson o)
+  else throw s!"bad nested obs {j.compress}"
+
+def nestedToJson : Nested Val → Json
+  | .first o => Json.mkObj [("first", evToJson o)]
+  | .second o => Json.mkObj [("second", evToJson o)]
+
+def evOfRes (r : Except C01.TErr Val) : EvalObs Val :=
+  match r with
+  | .ok v => .ok v
+  | .error (.pae k e) => .pae k e.cls
+  | .error (.raised e) => .other e.cls
+  | .error .unregistered => .other "UnregisteredTarget"
+  | .error .badSpec => .other "BadSpec"
+
+def stepValOfJson (j : Json) : Except String (String × Val) := pairOfJson strOfJson valOfJson j
+
+def runConcat (j : Json) : Except String Json := do
+  let classes ← classTableOfJson (← j.getObjVal? "classes")
+  let heap ← heapOfJson (← j.getObjVal? "heap")
+  let target ← valOfJson (← j.getObjVal? "target")
+  let p ← listOfJson stepValOfJson (← j.getObjVal? "p")
+  let q ← listOfJson stepValOfJson (← j.getObjVal? "q")
+  let impl ← j.getObjVal? "impl"
+  let implJoined ← evOfJson (← impl.getObjVal? "joined")
+  let implNested ← nestedOfJson (← impl.getObjVal? "nested")
+  if !(C01.wfSteps p && C01.wfSteps q) then
+    return Json.mkObj [("skip", true), ("why", "path has non-access steps")]
+  let env := C01.genEnv classes
+  let ev (steps : List (String × Val)) (t : Val) : EvalObs Val :=
+    evOfRes (C01.tEval env heap (.sent "T" :: C01.flatOfSteps steps) t).res
+  let mJoined := ev (p ++ q) target
+  let mNested : Nested Val := match ev p target with
+    | .ok v => .second (ev q v)
+    | o => .first o
+  let holds := checkConcat p.length implJoined implNested
+  let modelHolds := checkConcat p.length mJoined mNested
+  let agree := decide (mJoined = implJoined) && decide (mNested = implNested) && modelHolds
+  let br := match mNested with
+    | .first _ => "fail-in-p" | .second (.ok _) => "ok" | .second _ => "fail-in-q"
+  return Json.mkObj [("agree", agree), ("holds", holds), ("model_holds", modelHolds),
+    ("model", Json.mkObj [("joined", evToJson mJoined), ("nested", nestedToJson mNested)]),
+    ("branch", s!"concat/{br}"),
+    ("why", (if holds then "" else "glom(t, Path(p, q)) differs from glom(glom(t, p), q); ") ++
+            (if agree then "" else "model differs from implementation; "))]
+
+def run (j : Json) : Except String Json := do
+  match j.getObjValAs? String "kind" with
+  | .ok "repr" => runRepr j
+  | .ok "seq" => runSeq j
+  | .ok "concat" => runConcat j
+  | _ => throw "unknown case kind"
 
 end Glom.C18.Driver
